@@ -478,6 +478,13 @@ class Desugar(ast.NodeTransformer):
             gen = ast.GeneratorExp(elt=ast.Compare(left=x, ops=[ast.Eq()], comparators=[y]),
                                    generators=[ast.comprehension(target=ast.Tuple(elts=[ast.Name(id="_mx", ctx=ast.Store()), ast.Name(id="_my", ctx=ast.Store())], ctx=ast.Store()), iter=z, ifs=[], is_async=0)])
             return ast.copy_location(ast.Call(func=node.func, args=[gen], keywords=[]), node)
+        # f(*(E for v in (a, b)))  ->  f(*[E[a], E[b]])
+        for a in node.args:
+            if isinstance(a, ast.Starred) and isinstance(a.value, ast.GeneratorExp) and len(a.value.generators) == 1:
+                g = a.value.generators[0]
+                if not g.ifs and isinstance(g.iter, (ast.Tuple, ast.List)) and 0 < len(g.iter.elts) <= 8 and isinstance(g.target, ast.Name) \
+                        and not any(isinstance(e, ast.Starred) for e in g.iter.elts):
+                    a.value = ast.copy_location(ast.List(elts=[_subst(a.value.elt, {g.target.id: e}) for e in g.iter.elts], ctx=ast.Load()), a.value)
         # f(*[a, b])  ->  f(a, b)
         if any(isinstance(a, ast.Starred) and isinstance(a.value, (ast.List, ast.Tuple)) for a in node.args):
             args = []
@@ -676,6 +683,189 @@ def inline_closures(tree):
                         setattr(owner, fld, [s for s in lst if s is not h.node] or [ast.Pass()])
                 n += 1
     return n
+
+
+# ------------------------------------------------------------------------------------------- D12 single-yield context managers
+def inline_contextmanagers(tree):
+    """`with self._cm(a): BODY` where `_cm` is a private @contextmanager generator with exactly one statement-level `yield`:
+    the generator body with the yield replaced by BODY (that is what contextlib does: an exception of BODY is thrown in at the
+    yield, so the generator's try/except/finally around the yield sees it).  The helper is removed once no use is left."""
+    import copy
+    n = 0
+
+    def cms(body):
+        out = {}
+        for st in body:
+            if isinstance(st, ast.FunctionDef) and st.name.startswith("_") and not st.name.startswith("__") \
+                    and [ast.unparse(d) for d in st.decorator_list] in (["contextmanager"], ["contextlib.contextmanager"]):
+                ys = [x for x in ast.walk(st) if isinstance(x, (ast.Yield, ast.YieldFrom))]
+                if len(ys) != 1 or not isinstance(ys[0], ast.Yield):
+                    continue
+                # the yield is a statement of its own
+                if not any(isinstance(x, ast.Expr) and x.value is ys[0] for x in ast.walk(st)):
+                    continue
+                if st.args.vararg or st.args.kwarg or st.args.kwonlyargs or st.args.defaults:
+                    continue
+                if any(isinstance(x, (ast.FunctionDef, ast.Lambda, ast.Global, ast.Nonlocal)) and x is not st for x in ast.walk(st)):
+                    continue
+                if any(isinstance(x, ast.Return) for x in ast.walk(st)):
+                    continue
+                out[st.name] = st
+        return out
+
+    def expand(with_st, helper, call, is_method):
+        params = [a.arg for a in helper.args.args]
+        args = list(call.args)
+        if call.keywords:
+            return None
+        env = {}
+        pre = []
+        if is_method:
+            if not params:
+                return None
+            env[params[0]] = call.func.value
+            params = params[1:]
+        if len(params) != len(args):
+            return None
+        for pn, a in zip(params, args):
+            if isinstance(a, (ast.Name, ast.Constant)) or (isinstance(a, ast.Attribute) and isinstance(a.value, ast.Name)):
+                env[pn] = a
+            else:
+                tmp = f"_cm_{helper.name}_{pn}"
+                pre.append(ast.Assign(targets=[ast.Name(id=tmp, ctx=ast.Store())], value=a))
+                env[pn] = ast.Name(id=tmp, ctx=ast.Load())
+        stored = {x.id for x in ast.walk(helper) if isinstance(x, ast.Name) and isinstance(x.ctx, ast.Store)}
+        stored |= {h.name for h in ast.walk(helper) if isinstance(h, ast.ExceptHandler) and h.name}
+        if stored & set(env):
+            return None
+        ren = {v: f"_cm_{helper.name}_{v}" for v in stored}
+        body = [copy.deepcopy(b) for b in helper.body if not (isinstance(b, ast.Expr) and isinstance(b.value, ast.Constant))]
+        item = with_st.items[0]
+
+        class R(ast.NodeTransformer):
+            def visit_Name(self, node):
+                if node.id in ren:
+                    return ast.copy_location(ast.Name(id=ren[node.id], ctx=node.ctx), node)
+                if node.id in env and isinstance(node.ctx, ast.Load):
+                    return copy.deepcopy(env[node.id])
+                return node
+
+            def visit_ExceptHandler(self, node):
+                self.generic_visit(node)
+                if node.name in ren:
+                    node.name = ren[node.name]
+                return node
+
+            def visit_Expr(self, node):
+                if isinstance(node.value, ast.Yield):
+                    out = []
+                    if item.optional_vars is not None:
+                        v = self.visit(node.value.value) if node.value.value is not None else ast.Constant(value=None)
+                        out.append(ast.Assign(targets=[item.optional_vars], value=v))
+                    return out + list(with_st.body)
+                self.generic_visit(node)
+                return node
+
+        mod = ast.Module(body=body, type_ignores=[])
+        R().visit(mod)
+        return pre + mod.body
+
+    def rewrite(owner_body, helpers, is_method):
+        nonlocal n
+        if not helpers:
+            return
+
+        class W(ast.NodeTransformer):
+            def visit_With(self, node):
+                self.generic_visit(node)
+                if len(node.items) == 1 and isinstance(node.items[0].context_expr, ast.Call):
+                    c = node.items[0].context_expr
+                    name = None
+                    if is_method and isinstance(c.func, ast.Attribute) and isinstance(c.func.value, ast.Name) and c.func.attr in helpers:
+                        name = c.func.attr
+                    elif not is_method and isinstance(c.func, ast.Name) and c.func.id in helpers:
+                        name = c.func.id
+                    if name:
+                        new = expand(node, helpers[name], c, is_method)
+                        if new is not None:
+                            nonlocal_n[0] += 1
+                            return new
+                return node
+
+        nonlocal_n = [0]
+        for st in owner_body:
+            if isinstance(st, ast.FunctionDef) and st.name not in helpers:
+                W().visit(st)
+        n += nonlocal_n[0]
+
+    mh = cms(tree.body)
+    for cls in [x for x in tree.body if isinstance(x, ast.ClassDef)]:
+        ch = cms(cls.body)
+        rewrite(cls.body, ch, True)
+        rewrite(cls.body, mh, False)
+        for name, h in ch.items():
+            if not any(isinstance(x, ast.Attribute) and x.attr == name for x in ast.walk(tree)):
+                cls.body = [s for s in cls.body if s is not h] or [ast.Pass()]
+    rewrite(tree.body, mh, False)
+    for name, h in mh.items():
+        if not any(isinstance(x, ast.Name) and x.id == name and isinstance(x.ctx, ast.Load) for x in ast.walk(tree)):
+            tree.body = [s for s in tree.body if s is not h]
+    if n:
+        ast.fix_missing_locations(tree)
+    return n
+
+
+# ------------------------------------------------------------------------------------------- D13 field names of a literal record type
+def dtype_names(tree):
+    """`N.btype.names` / `N.names` for a module constant `N = TdfType(np.dtype([("a", ..), ..]))` / `N = np.dtype([..])`: the
+    literal tuple of field names (numpy's dtype.names is the field names in declaration order)."""
+    def fields(v):
+        if isinstance(v, ast.Call) and ast.unparse(v.func) in ("np.dtype", "numpy.dtype") and len(v.args) == 1 and not v.keywords:
+            v = v.args[0]
+        else:
+            return None
+        if isinstance(v, ast.List) and v.elts and all(isinstance(e, ast.Tuple) and len(e.elts) >= 2 and isinstance(e.elts[0], ast.Constant)
+                                                       and isinstance(e.elts[0].value, str) for e in v.elts):
+            return [e.elts[0].value for e in v.elts]
+        return None
+
+    wrapped, plain = {}, {}
+    stores = {}
+    for x in ast.walk(tree):
+        if isinstance(x, ast.Name) and isinstance(x.ctx, ast.Store):
+            stores[x.id] = stores.get(x.id, 0) + 1
+    for st in tree.body:
+        if isinstance(st, ast.Assign) and len(st.targets) == 1 and isinstance(st.targets[0], ast.Name) and stores.get(st.targets[0].id) == 1:
+            v = st.value
+            if isinstance(v, ast.Call) and isinstance(v.func, ast.Name) and v.func.id == "TdfType" and len(v.args) == 1 and not v.keywords:
+                f = fields(v.args[0])
+                if f:
+                    wrapped[st.targets[0].id] = f
+            else:
+                f = fields(v)
+                if f:
+                    plain[st.targets[0].id] = f
+    if not wrapped and not plain:
+        return 0
+    n = [0]
+
+    class R(ast.NodeTransformer):
+        def visit_Attribute(self, node):
+            self.generic_visit(node)
+            if node.attr == "names" and isinstance(node.ctx, ast.Load):
+                v = node.value
+                f = None
+                if isinstance(v, ast.Name) and v.id in plain:
+                    f = plain[v.id]
+                elif isinstance(v, ast.Attribute) and v.attr == "btype" and isinstance(v.value, ast.Name) and v.value.id in wrapped:
+                    f = wrapped[v.value.id]
+                if f:
+                    n[0] += 1
+                    return ast.copy_location(ast.Tuple(elts=[ast.Constant(value=k) for k in f], ctx=ast.Load()), node)
+            return node
+
+    R().visit(tree)
+    return n[0]
 
 
 # ------------------------------------------------------------------------------------------- D9 NamedTuple carriers
@@ -880,10 +1070,13 @@ class ForwardTemps:
 
         if not find(root, False):
             return False
-        pos = (u.lineno, u.col_offset) if hasattr(u, "lineno") else (0, 0)
-        for c in ast.walk(root):
+        # in EVALUATION order (not source position: forwarded expressions keep the positions of where they came from), no call
+        # with possible effects may be evaluated before the use unless it encloses it
+        for c in eval_order(root):
+            if c is u:
+                break
             if isinstance(c, ast.Call) and not any(x is u for x in ast.walk(c)):
-                if (getattr(c, "lineno", 0), getattr(c, "col_offset", 0)) < pos and not (isinstance(c.func, ast.Name) and c.func.id in PURE_FUNCS):
+                if not (isinstance(c.func, ast.Name) and c.func.id in PURE_FUNCS):
                     return False
         # targets of an assignment are evaluated after the value: fine
         return True
@@ -995,6 +1188,8 @@ class DispatchSplit:
 def desugar_module(tree: ast.Module):
     MatchToIf().visit(tree)
     ast.fix_missing_locations(tree)
+    inline_contextmanagers(tree)
+    dtype_names(tree)
     WalrusHoist().run(tree)
     WhileToFor().run(tree)
     TryFinallyClose().run(tree)
